@@ -402,8 +402,7 @@ func checkC14(p *Prog, res *Result, tier string) {
 		}
 	}
 	// R5
-	sub := newResult("C11")
-	checkC11(p, sub, tier)
+	sub := p.subResult("C11", tier)
 	for _, o := range sub.Obls {
 		if (o.Rule == "C11-R1" && (strings.Contains(o.Construct, "CAS") || strings.Contains(o.Construct, "PutIfNotExist"))) ||
 			(o.Rule == "C11-R2" && (strings.Contains(o.Construct, "Commit") || strings.Contains(o.Construct, "memkv") || strings.Contains(o.Construct, "election"))) {
@@ -476,8 +475,7 @@ func checkC15(p *Prog, res *Result, tier string) {
 	}
 
 	// ---- R3 / R4 ----
-	sub := newResult("C02")
-	checkC02(p, sub, tier)
+	sub := p.subResult("C02", tier)
 	for _, o := range sub.Obls {
 		if o.Rule == "C02-R1" && (strings.Contains(o.Construct, "Commit") || strings.Contains(o.Construct, "Deal")) {
 			res.add("C15-R3", o.Rule+" "+o.Construct, o.Status, o.Pos, o.Detail)
